@@ -363,6 +363,14 @@ class Engine:
             if k and k[0] == 'eq' and k[1] in (0, 1):
                 return ('eq', 1 - k[1])
             return None
+        if expr[0] == 'isv' and expr not in facts:
+            # `v is Variant` as a boolean: answered by what the path knows about v's variant
+            k = self.variant_known(facts, expr[1])
+            if k and k[0] == 'eq':
+                return ('eq', int(k[1] == expr[2]))
+            if k and k[0] == 'ne' and expr[2] in k[1]:
+                return ('eq', 0)
+            return None
         return facts.get(expr)
 
     def variant_known(self, st_or_facts, v):
@@ -1362,6 +1370,8 @@ class Engine:
                 self.write(st, loc + ('start',), nxt)
                 outs.append((st, some(start)))
             return outs
+        if name == 'identity' and 'convert' in path and len(args) == 1:
+            return [(st, args[0])]
         # ---- iter::successors(first, f) and `.last()` on it: the walk `cur = first; while let Some(n) = f(&cur) { cur = n }`
         if name == 'successors' and 'iter' in path and len(args) == 2:
             return [(st, ('succ', args[0], args[1]))]
@@ -1782,6 +1792,12 @@ class Engine:
             callee = self.F.fn(fpath)
             # a tuple-struct / tuple-variant constructor used as a function (`.map_err(ChannelSendError)`)
             base = strip_generics_(fpath)
+            std_ctor = {'Some': OPTION, 'Ok': RESULT, 'Err': RESULT, 'Ready': POLL}
+            last_ = base.rsplit('::', 1)[-1]
+            if callee is None and last_ in std_ctor and len(params) == 1 and base.startswith('std::') and \
+                    base.rsplit('::', 1)[0].endswith(std_ctor[last_].rsplit('::', 1)[-1]):
+                yield st, ('agg', std_ctor[last_], last_, (('0', params[0]),))
+                return
             if callee is None and base in self.F.adts and self.F.adts[base]['kind'] == 'struct':
                 a_ = self.F.adts[base]
                 yield st, ('agg', base, a_['variants'][0]['name'],
